@@ -432,6 +432,8 @@ func runC13(cfg Config) {
 		rep.Compare(m, line, implUntar, nil)
 		rep.Count(line, true, "testdata")
 	}
+	// child names sorted when packing from disk: the order of the record stream LocalFS delivers (lfsread.go)
+	lfsReadCases(cfg, rep, m, rand.New(rand.NewSource(cfg.Seed^0x1f13)), cfg.N(12, 300))
 	c13CLI(cfg, rep, rng, monitor)
 	rep.Write(cfg.Out)
 }
